@@ -182,7 +182,7 @@ def run(snap, obs, use_cache=True):
             results[ob["id"]] = c
         else:
             # one invocation per package and timeout class (Kani has one --harness-timeout per run)
-            todo.setdefault((ob["pkg"], ob["timeout"] > 300), []).append(ob)
+            todo.setdefault((ob["pkg"], ob["timeout"] > 900), []).append(ob)
     for (pkg, _long), pobs in sorted(todo.items()):
         res = _run_pkg(snap, pkg, pobs)
         for ob in pobs:
@@ -194,7 +194,7 @@ def run(snap, obs, use_cache=True):
     return results
 
 
-MEM_CAP_KB = int(float(os.environ.get("VERIF_MEM_GB", "10")) * 1024 * 1024)
+MEM_CAP_KB = int(float(os.environ.get("VERIF_MEM_GB", "14")) * 1024 * 1024)
 
 
 def _rss_watchdog(stop):
@@ -407,6 +407,7 @@ def native_replay(snap, ob, tests):
     panics = [l for l in out.split("\n") if "panicked at" in l]
     failed = re.search(r"test result: FAILED", out) is not None
     lines = [l for l in out.split("\n") if not l.startswith("warning") and l.strip()]
-    interesting = [l for l in out.split("\n") if "panicked at" in l or "assertion" in l or "test result" in l or "overflow" in l]
+    interesting = [l[:300] for l in out.split("\n")
+                   if ("panicked at" in l or "assertion" in l or "test result" in l or "overflow" in l) and not l.lstrip().startswith("process didn't")]
     return {"reproduced": bool(failed and panics), "panics": panics[:5], "cmd": " ".join(cmd),
             "output_tail": "\n".join(interesting[-20:]) or "\n".join(lines[-15:])}
